@@ -34,3 +34,31 @@ func ZZ_C10_bls12381_G2_SetBytes() {
 	var g G2
 	_ = g.SetBytes(b)
 }
+
+// C09: an accepted encoding has exactly the size its flag byte announces (48/96 for G1, 96/192 for
+// G2): trailing bytes are refused, so that an accepted point re-serialises to the parsed bytes
+//
+//zz: prop=C09 tier=quick backend=bv use=ffuf,ffsign,ffrange,g1member maxpaths=100000 budget=300
+func ZZ_C09_bls12381_SetBytes_exact_length() {
+	if zzPick("group", 1, 2) == 1 {
+		n := zzPick("len", 48, 49, 96, 97)
+		b := make([]byte, n)
+		zzFill("b", b)
+		var g G1
+		if g.SetBytes(b) == nil {
+			compressed := b[0]>>7 == 1
+			zzAssert(zzIff(compressed, n == G1SizeCompressed), "G1: accepted compressed encodings have 48 bytes")
+			zzAssert(zzIff(zzNot(compressed), n == G1Size), "G1: accepted uncompressed encodings have 96 bytes")
+		}
+	} else {
+		n := zzPick("len", 96, 97, 192, 193)
+		b := make([]byte, n)
+		zzFill("b", b)
+		var g G2
+		if g.SetBytes(b) == nil {
+			compressed := b[0]>>7 == 1
+			zzAssert(zzIff(compressed, n == G2SizeCompressed), "G2: accepted compressed encodings have 96 bytes")
+			zzAssert(zzIff(zzNot(compressed), n == G2Size), "G2: accepted uncompressed encodings have 192 bytes")
+		}
+	}
+}
